@@ -22,17 +22,31 @@ def run(chk):
                      # confidence floor: a detection below the minimal confidence is weighed with the minimal confidence
                      ("r1-d3-minconf", dict(depth=3, MaxIdle=1, MaxDets=2, Confs={900, 20}, MinConf=400, Slots={1}, Scenes={1})),
                      ("r1-d3-lowconf", dict(depth=3, MaxIdle=1, MaxDets=1, Confs={900, 200}, MinConf=50, Slots={1}, Scenes={1})),
+                     # a threshold other than the default: a weak detection (confidence x IoU between the configured and the
+                     # default threshold) continues its track
+                     ("r1-d3-thr100", dict(depth=3, MaxIdle=1, MaxDets=2, Confs={900, 200}, Thr=100, Slots={1}, Scenes={1})),
                      ("r1-d4-idle2-maha", dict(depth=4, MaxIdle=2, Metric="maha", Thr=1000, MaxDets=1, Confs={900}, Slots={1}, Scenes={1}))):
         r, c = tc.generate(chk, name, **kw)
-        for kind in (("sort",) if quick else ("sort", "batchsort", "visual")):
+        for kind in ((("sort", "batchsort") if name == "r1-d3-thr100" else ("sort",)) if quick else ("sort", "batchsort", "visual")):
             tc.replay(chk, name, r, c, kind, 2, "C02", "nt_C01")
-    n = 12 if quick else 200
+    # every tracker kind x {IoU at the default, a low and a high threshold; Mahalanobis with default, tight, loose and very
+    # loose (position weight 1: the chi-square gate reaches farther than the bounding circles) Kalman weights}
+    combos = [(kind, m) for m in ("iou:0.3", "iou:0.1", "iou:0.5", "maha:d", "maha:0.1", "maha:0.025", "maha:1.0")
+              for kind in ("sort", "batchsort", "visual")]
+    if quick:
+        # one pass over the 9 IoU combinations, 5 Mahalanobis ones spread over the kinds
+        combos = combos[:9] + [combos[9], combos[13], combos[17], combos[18], combos[19]]
+    n = len(combos) if quick else 210
     traces, greedy, near = [], 0, 0
     for i in range(n):
-        kind = ("sort", "batchsort", "visual", "sort")[i % 4]
-        metric = "maha" if i % 3 == 2 else "iou"
-        # non-default Kalman weights in some Mahalanobis runs: the gate must use the configured filter
-        wts = [("--pos-w", "0.1", "--vel-w", "0.0125", "--jump", "1"), ("--pos-w", "0.025", "--vel-w", "0.00625", "--jump", "1"), ()][(i // 3) % 3] if metric == "maha" else ()
+        kind, m = combos[i % len(combos)]
+        metric, par = m.split(":")
+        if metric == "iou":
+            wts = ("--thr", par)
+        else:
+            wts = {"d": (), "0.1": ("--pos-w", "0.1", "--vel-w", "0.0125", "--jump", "1"),
+                   "0.025": ("--pos-w", "0.025", "--vel-w", "0.00625", "--jump", "1"),
+                   "1.0": ("--pos-w", "1.0", "--vel-w", "0.125", "--jump", "3")}[par]
         t = r2.record(chk, f"r2-{i}", kind, chk.seed * 1000 + i, steps=150 if quick else 300, shards=1 + i % 3, metric=metric,
                       objects=3 + i % 3, spread=(60, 90, 140)[i % 3], extra=list(wts))
         s = r2.trace_stats(t)
